@@ -223,6 +223,26 @@ func VerifyFunction(L *Loaded, cs *ContractSet, fn *ssa.Function, opts VerifyOpt
 	return res
 }
 
+// objInvsOf: the object invariants of a receiver type that apply to fn (a
+// `public-invariant` does not bind helpers that run under the caller's lock).
+func (x *Exec) objInvsOf(key string, fn *ssa.Function) []*Clause {
+	all := x.cs.ObjInvs[key]
+	if len(all) == 0 || fn == nil {
+		return all
+	}
+	ctr := x.contractFor(rootFn(fn))
+	if ctr == nil || len(ctr.Holds) == 0 {
+		return all
+	}
+	var out []*Clause
+	for _, c := range all {
+		if c.Kind != "public-invariant" {
+			out = append(out, c)
+		}
+	}
+	return out
+}
+
 // objInvsFor evaluates the object invariants that apply to fn's receiver
 // (for a closure: the captured variable holding the enclosing method's receiver).
 func (x *Exec) objInvsFor(fn *ssa.Function, params []Val, st *State) []Term {
@@ -232,7 +252,7 @@ func (x *Exec) objInvsFor(fn *ssa.Function, params []Val, st *State) []Term {
 		return nil
 	}
 	tn := recvTypeName(recv.Type())
-	invs := x.cs.ObjInvs[FuncPkgPath(fn)+"."+tn]
+	invs := x.objInvsOf(FuncPkgPath(fn)+"."+tn, fn)
 	if len(invs) == 0 {
 		return nil
 	}
@@ -600,7 +620,7 @@ func (x *Exec) exitObligations(fr *Frame, st *State, rs []Val, oldSt *State, spe
 	// every method re-establishes the object invariant of its receiver
 	if root := rootFn(fr.fn); root == fr.fn && root.Signature.Recv() != nil && len(fr.params) > 0 {
 		tn := recvTypeName(root.Signature.Recv().Type())
-		if invs := x.cs.ObjInvs[FuncPkgPath(fr.fn)+"."+tn]; len(invs) > 0 {
+		if invs := x.objInvsOf(FuncPkgPath(fr.fn)+"."+tn, fr.fn); len(invs) > 0 {
 			ienv := &Env{x: x, st: st, vars: map[string]Val{"self": fr.params[0]}, pkg: x.pkgOf(fr.fn)}
 			for _, c := range invs {
 				g := x.evalBool(ienv, c.Expr)
